@@ -71,6 +71,10 @@ def scenario(rng, spec):
     kw = {}
     if flt == "addr":
         kw["spa_address"] = resp[0].addr[0]
+    elif flt == "none" and spec.get("empty_addr"):
+        kw["spa_address"] = ""            # the "no address configured" value of a configuration entry: same as none
+    elif flt == "none" and spec.get("empty_ident"):
+        kw["spa_identifier"] = ""         # likewise "no identifier configured"
     elif flt == "absent":
         kw["spa_identifier"] = "SPA-not-there"
     elif flt != "none":
@@ -200,7 +204,7 @@ def run(ctx):
         flt = rng.choice(["none", "none", "addr", "absent"] + ([responders[rng.randrange(k)][0]] * 2 if k else []))
         if flt == "addr" and not k:
             flt = "none"
-        logs.append(scenario(rng, {"responders": responders, "filter": flt,
+        logs.append(scenario(rng, {"responders": responders, "filter": flt, "empty_addr": i % 3 == 0, "empty_ident": i % 3 == 1,
                                    "hd": rng.choice([0, 0, 0, 0.15, 0.35]),
                                    "rank": rng.choice(["stable", "reverse", "perm", "seeded"])}))
     # boundary grid: a reply consumed just before discover() decides to finish, with a client
